@@ -100,7 +100,7 @@ def variants(name, spec):
     files = spec["files"]
     src = files["main.oal"]
     v = {}
-    for st in ("block", "line", "space"):
+    for st in ("block", "line", "space", "varied"):
         v["trivia-" + st] = {**files, "main.oal": rw.trivia(src, st)}
     v["parenthesised"] = {**files, "main.oal": rw.parenthesise(src)}
     v["primitives-named"] = {**files, "main.oal": rw.name_primitives(src)}
